@@ -143,6 +143,7 @@ def rule_d2(ctx) -> None:
     ar = apply_rule
     acfg = CFG(ar.node)
     data_p, rule_p = ar.params[1], ar.params[3]
+    ratio_name = _ratio_name(ar)
     sub_ok = False
     sub_node = None
     for n in own_nodes(ar.node):
@@ -151,7 +152,7 @@ def rule_d2(ctx) -> None:
             for s in ast.walk(n):
                 if isinstance(s, ast.AugAssign) and isinstance(s.op, ast.Sub) and isinstance(s.target, ast.Subscript) and isinstance(s.target.slice, ast.Name) and s.target.slice.id == k:
                     val = s.value
-                    if isinstance(val, ast.BinOp) and isinstance(val.op, ast.Mult) and {x for x in names_in(val)} >= {v, "ratio"}:
+                    if isinstance(val, ast.BinOp) and isinstance(val.op, ast.Mult) and {x for x in names_in(val)} >= {v, ratio_name}:
                         # guards inside the loop: only `k in new_data`
                         g = [c for c, p in acfg.guards(acfg.node_of(s))]
                         extra = [unparse(c) for c in g if not (isinstance(c, ast.Compare) and isinstance(c.ops[0], ast.In)) and "can_match" not in unparse(c)]
@@ -162,7 +163,7 @@ def rule_d2(ctx) -> None:
         ctx.finding("C08-D2", "SyntheticRuleMatcher.apply_rule:subtract", ar.loc(sub_node) if sub_node else ar.loc(), "apply_rule does not subtract ratio x count for every key of the rule composition (a key such as Q may be skipped)")
     # ratio: min over floor divisions, dominated by the can_match guard
     ratio_ok = False
-    for _, v, idx in assignments_to(ar, "ratio"):
+    for _, v, idx in assignments_to(ar, ratio_name or ""):
         mins = [c for c in ast.walk(v) if isinstance(c, ast.Call) and isinstance(c.func, ast.Name) and c.func.id == "min"]
         fl = [b for b in ast.walk(v) if isinstance(b, ast.BinOp) and isinstance(b.op, ast.FloorDiv)]
         ratio_ok = bool(mins) and bool(fl)
@@ -190,6 +191,16 @@ def rule_d2(ctx) -> None:
     ctx.instance("C08-D2", "can_match: all(k in data and data[k] >= v ...)", can_match.loc(), ok=cm_ok)
     if not cm_ok:
         ctx.finding("C08-D2", "SyntheticRuleMatcher.can_match:predicate", can_match.loc(), "can_match no longer requires every rule element to be present in sufficient quantity")
+
+
+def _ratio_name(ar: Func):
+    """the local of apply_rule bound to min(<floor divisions>)"""
+    for n in own_nodes(ar.node):
+        if isinstance(n, ast.Assign) and len(n.targets) == 1 and isinstance(n.targets[0], ast.Name):
+            v = n.value
+            if any(isinstance(c, ast.Call) and isinstance(c.func, ast.Name) and c.func.id == "min" for c in ast.walk(v)) and any(isinstance(b, ast.BinOp) and isinstance(b.op, ast.FloorDiv) for b in ast.walk(v)):
+                return n.targets[0].id
+    return None
 
 
 def _is_zero_remainder(e: ast.AST, p: str) -> bool:
@@ -305,7 +316,7 @@ def rule_d4(ctx) -> None:
         if isinstance(n, ast.Dict):
             d = {const_str(k): v for k, v in zip(n.keys, n.values) if k is not None}
             if "smiles" in d and "Ratio" in d:
-                ok2 = unparse(d["smiles"]).endswith("['smiles']") and isinstance(d["Ratio"], ast.Name) and d["Ratio"].id == "ratio"
+                ok2 = unparse(d["smiles"]).endswith("['smiles']") and isinstance(d["Ratio"], ast.Name) and d["Ratio"].id == _ratio_name(ar)
     ctx.instance("C08-D4", "path entries are {'smiles': rule['smiles'], 'Ratio': ratio}", ar.loc(), ok=ok2)
     if not ok2:
         ctx.finding("C08-D4", "SyntheticRuleMatcher.apply_rule:path-entry", ar.loc(), "a path entry is not built from the rule's own smiles and the guarded ratio")
@@ -333,8 +344,18 @@ def rule_d5(ctx) -> None:
     ok = False
     for n in norm:
         g = n.value.generators[0]
-        conds = [unparse(c) for c in g.ifs]
-        ok = conds in (["v != 0 or k == 'Q'"], ["k == 'Q' or v != 0"], [])
+        # for <k>, <v> in <x>.items() if <v> != 0 or <k> == 'Q'   (either order; or no filter at all)
+        ok = not g.ifs
+        if len(g.ifs) == 1 and isinstance(g.target, ast.Tuple) and len(g.target.elts) == 2 and all(isinstance(x, ast.Name) for x in g.target.elts):
+            kn, vn = g.target.elts[0].id, g.target.elts[1].id
+            c = g.ifs[0]
+            if isinstance(c, ast.BoolOp) and isinstance(c.op, ast.Or) and len(c.values) == 2:
+                forms = set()
+                for x in c.values:
+                    nc = normal_compare(x, True)
+                    if nc and isinstance(nc[0], ast.Name) and isinstance(nc[2], ast.Constant):
+                        forms.add((("k" if nc[0].id == kn else "v" if nc[0].id == vn else "?"), nc[1], nc[2].value))
+                ok = forms == {("v", "!=", 0), ("k", "==", "Q")}
     ctx.instance("C08-D5", "matcher normalisation drops zero counts only", init.loc(), ok=ok or not norm, nontrivial=True)
     if norm and not ok:
         ctx.finding("C08-D5", "SyntheticRuleMatcher.__init__:normalisation", init.loc(norm[0]), "the imbalance is normalised with %s; entries other than zeros can be dropped" % [unparse(c) for c in norm[0].value.generators[0].ifs])
